@@ -31,6 +31,8 @@ structure CryptoOps where
   pubOf : Bytes → Bytes
   /-- is this a well-formed private key container -/
   validPriv : Bytes → Bool
+  /-- key-pair generation: private key container from 32 random bytes (`keys.New`) -/
+  privOfSeed : Bytes → Bytes
   hmac : Bytes → Bytes → Bytes
   sha256 : Bytes → Bytes
 
@@ -65,6 +67,10 @@ structure MsgLaws (c : CryptoOps) : Prop where
 structure MsgLen (c : CryptoOps) : Prop where
   wrap_len : ∀ a p m n ct, c.wrap a p m n = some ct → ct.length = m.length + wrapOverhead
   pub_len : ∀ a, c.validPriv a = true → (c.pubOf a).length = keyContainerLen
+
+/-- Key generation yields valid private keys. -/
+structure KeygenLaws (c : CryptoOps) : Prop where
+  valid_seed : ∀ d, d.length = 32 → c.validPriv (c.privOfSeed d) = true
 
 /-- Output length of the hashes. NEVER assume together with `HashInj` (pigeonhole: jointly
 unsatisfiable). Statements that need both the 32-byte layout and collision freedom take the latter
